@@ -123,8 +123,8 @@ class C06(Property):
       return ["c", c]
 
     def single():
-      route = W.weighted("route", [(3, "expr"), (2, "lists"), (2, "quot"),
-                                   (1, "dicts")])
+      route = W.weighted("route", [(6, "expr"), (4, "lists"), (4, "quot"),
+                                   (2, "dicts"), (1, "proto")])
       nnum = W.span("nnum", 1, 4)
       powers = sorted(set(W.choose("pow", 4) for _ in range(nnum)))
       num = [[k, coeff()] for k in powers]
@@ -398,6 +398,8 @@ class C06(Property):
   def build(self, tree, sources, cstream=0, const_as_stream=False):
     """ Returns the real filter for ``tree`` over the given SimSources. """
     Stream, z, ZFilter = self.ls.Stream, self.lf.z, self.lf.ZFilter
+    if not hasattr(self, "protos"):
+      self.protos = []
     flip = [cstream]
     keep_alive = []
     hubs = {}
@@ -434,6 +436,19 @@ class C06(Property):
     def rec(t):
       op = t["op"]
       if op == "single":
+        if t["route"] == "proto":
+          # copy a constant-coefficient prototype and give the COPY its
+          # coefficients by item assignment; the prototype stays as it was
+          proto = ZFilter(dict((k, 1) for k, _ in t["num"]),
+                          dict((k, 1) for k, _ in t["den"]))
+          f = proto.copy()
+          for k, c in t["num"]:
+            f.numpoly[k] = cval(c)
+          for k, c in t["den"]:
+            f.denpoly[k] = cval(c)
+          self.protos.append((proto, sorted(k for k, _ in t["num"]),
+                              sorted(k for k, _ in t["den"])))
+          return f
         if t["route"] == "dicts":
           return ZFilter(dict((k, cval(c)) for k, c in t["num"]),
                          dict((k, cval(c)) for k, c in t["den"]))
@@ -645,6 +660,7 @@ class C06(Property):
     return res
 
   def _run(self, wl, S, res, events, info):
+    self.protos = []
     tree = wl["tree"]
     sids = self.tree_sids(tree)
     info["nstreams"] = len(sids)
@@ -849,6 +865,16 @@ class C06(Property):
       events.append("pull %d -> n=%d%s" % (k, n, " END" if ended else ""))
     info["demand"] = demand
     res.steps = n
+    for proto, npow, dpow in getattr(self, "protos", []):
+      nt = dict(proto.numpoly.terms())
+      dt = dict(proto.denpoly.terms())
+      if sorted(nt) != npow or sorted(dt) != dpow or \
+         any(isinstance(v, self.ls.Stream) or v != 1
+             for v in list(nt.values()) + list(dt.values())):
+        raise _Mismatch("prototype-changed", "the constant-coefficient "
+                        "filter that was only copied now has num %r den %r"
+                        % (nt, dt))
+      res.counters["probe.copy-of-a-prototype-re-armed"] += 1
     if out_len is not None:
       if not ended:
         raise _Mismatch("end:too-long", "no StopIteration after %d outputs"
